@@ -14,16 +14,8 @@
   * a required member missing inside a group entry is only visible to the walk, i.e. under RejectInvalidMessage.
   * user-defined tags (≥ 5000) are governed by CheckUserDefinedFields, others by AllowUnknownMessageFields.
 
-  Narrow signatures for defects of the unchanged tree that surface here whatever was planted (known findings):
-    parse_sectioning{field_on_wire_not_in_map}   reject(1,t) although `t=` is on the wire: the dictionary-guided parser
-                                                 filed it inside a repeating group (D6, codec family)
-    transport_msgtype_enum{app_msgtype}          reject(5,35): the transport dictionary's MsgType enumeration does not list
-                                                 a message type of the application dictionary (FIXT11.xml vs FIX50SP1/SP2)
-    multiple_value_enum{tokens_declared}         reject(5,t): a multiple-value field whose space separated tokens are all
-                                                 declared values is compared as one token (D13)
-  and, through the generator's position hint `ctx` (only part of the signature text):
-    defect_required_missing{accept,grptail}      a required member missing at the END of a group entry that is followed by
-                                                 another entry is not noticed (the walk restarts the member list at the delimiter)
+  (the recognisers for `parse_sectioning` (D6), `transport_msgtype_enum`, `multiple_value_enum` and the `grptail` hint belonged
+   to defects that are now fixed in the repo; a recurrence shows up as an ordinary clause failure)
 -/
 import Qfx.Model.Validate
 namespace Qfx.Validate
@@ -101,10 +93,6 @@ inductive Obs where
   | parseError
   deriving DecidableEq, Repr
 
-def splitOn32 : Bytes → Bytes → List Bytes
-  | [], cur => [cur.reverse]
-  | c :: r, cur => if c = 32 then cur.reverse :: splitOn32 r [] else splitOn32 r (c :: cur)
-
 /-- the dictionary `validateFields` consults for tag `t` -/
 def dictFor (app : VDict) (tr : Option VDict) (mt : Bytes) (t : Nat) : VDict :=
   match tr with
@@ -113,27 +101,10 @@ def dictFor (app : VDict) (tr : Option VDict) (mt : Bytes) (t : Nat) : VDict :=
 
 /-- known defects of the unchanged tree, recognised by what the implementation said (not by what was planted) -/
 def knownSignature (app : VDict) (tr : Option VDict) (m : PMsg) (o : Obs) : Option String :=
-  match o with
-  | .reject ⟨1, some t⟩ =>
-    if m.fields.any (fun f => f.tag == t) && !(m.hdr.contains t || m.body.contains t || m.trl.contains t)
-    then some "parse_sectioning{field_on_wire_not_in_map}" else none
-  | .reject ⟨5, some t⟩ =>
-    match m.msgType with
-    | none => none
-    | some mt =>
-      if t == 35 && !isAdminMsgType mt && (app.msg? mt).isSome &&
-          (match tr with
-           | some d => (match d.ftype 35 with | some ft => !ft.enums.isEmpty && !ft.enums.contains mt | none => false)
-           | none => false)
-      then some "transport_msgtype_enum{app_msgtype}"
-      else
-        match (dictFor app tr mt t).ftype t with
-        | some ft =>
-          if ft.multi && m.fields.any (fun f => f.tag == t && f.value.contains 32 &&
-                (splitOn32 f.value []).all (fun tok => ft.enums.contains tok))
-          then some "multiple_value_enum{tokens_declared}" else none
-        | none => none
-  | _ => none
+  -- D6 (dictionary-guided parser filing body fields inside a group) is fixed in the repo (d0a429c); its recogniser is
+  -- gone with it, so a recurrence is judged like any other outcome
+  let _ := (app, tr, m, o)
+  none
 
 def obsCtx : Obs → String
   | .accept => "accept"
